@@ -24,6 +24,7 @@ import time
 from ..core import Run, pmap, chunked
 from ..gen import c13_types as T
 from ..gen import c13_views as V
+from ..gen import c13_alias as A
 
 LEVEL = "exploration"
 
@@ -543,6 +544,70 @@ def part_emit(run: Run):
 
 
 # ---------------------------------------------------------------------------------------------------
+# part 4: distinct roots do not alias; views with a run-time index stay on the element selected at creation
+# ---------------------------------------------------------------------------------------------------
+def work_alias(tasks):
+    out = []
+    for fam, case in tasks:
+        case = _tup(case)
+        try:
+            if fam == "distinct":
+                pr, st = A.check_distinct(case)
+                r = {"status": "rejected", "error": st["rejected"]} if pr is None else \
+                    {"status": "mismatch" if pr else "ok", "what": "; ".join(pr[:1]), "evals": st["writes"]}
+            elif fam == "arrinit":
+                r = A.check_arrinit(case)
+            else:
+                r = A.check_dynidx(case)
+        except Exception as e:  # noqa
+            r = {"status": "simfail", "error": f"{type(e).__name__}: {str(e)[:200]}"}
+        r["fam"], r["case"] = fam, case
+        if r["status"] == "ok":
+            r.pop("src", None)
+        out.append(r)
+    return out
+
+
+def _tup(x):
+    return tuple(_tup(y) for y in x) if isinstance(x, (list, tuple)) else x
+
+
+def alias_key(fam, case):
+    if fam == "dynidx":
+        return A.dynidx_key(case)
+    return f"alias/{fam}/" + "/".join(str(c).replace(" ", "").replace("[", "(").replace("]", ")") for c in case)
+
+
+def part_alias(run: Run):
+    tasks = [("distinct", c) for c in A.distinct_cases()] + [("arrinit", c) for c in A.arrinit_cases()] + \
+            [("dynidx", c) for c in A.dynidx_cases()]
+    items, fails = [], []
+    for kind, res in pmap(work_alias, list(chunked(tasks, 12)), seed=run.seed):
+        if kind != "ok":
+            run.tool_error(f"alias worker failed: {res[-800:]}")
+            continue
+        for r in res:
+            fam, case, st = r["fam"], r["case"], r["status"]
+            run.count(f"alias_{fam}_{st}")
+            if st == "ok":
+                run.count("alias_evaluations", r.get("evals", 0))
+                if run.counters[f"alias_{fam}_ok"] == 7:
+                    run.sample({"family": fam, "case": list(case), "evaluations": r.get("evals", 0)})
+            elif st in ("mismatch", "static"):
+                items.append(((fam,) + tuple(case[:1]), (len(str(case)), str(case)), alias_key(fam, case),
+                              f"{fam} {case}: {r['what']}", {"part": "alias", "fam": fam, "case": list(case), "cohdl_source": r.get("src")}))
+            elif st in ("rejected", "simfail"):
+                fails.append(f"{fam} {case}: {r['error']}")
+    report_grouped(run, items, 3, "alias_mismatches_not_listed")
+    n_ok = sum(v for k, v in run.counters.items() if k.startswith("alias_") and k.endswith("_ok"))
+    if fails:
+        run.note(f"{len(fails)} alias cases rejected / not simulated, first: {fails[0][:200]}")
+    if not run.violations and (n_ok * 10 < len(tasks) * 9):
+        run.tool_error(f"alias vacuous: only {n_ok} of {len(tasks)} cases executed; first failure: {(fails or ['?'])[0][:200]}")
+    run.count("alias_cases", len(tasks))
+
+
+# ---------------------------------------------------------------------------------------------------
 def main(run: Run):
     only = getattr(run, "only", None)
     t0 = time.time()
@@ -554,7 +619,11 @@ def main(run: Run):
     t2 = time.time()
     if not only or "emit" in only:
         part_emit(run)
-    run.coverage_extra["part_wall_s"] = {"types": round(t1 - t0, 1), "pyview": round(t2 - t1, 1), "emit": round(time.time() - t2, 1)}
+    t3 = time.time()
+    if not only or "alias" in only:
+        part_alias(run)
+    run.coverage_extra["part_wall_s"] = {"types": round(t1 - t0, 1), "pyview": round(t2 - t1, 1), "emit": round(t3 - t2, 1),
+                                         "alias": round(time.time() - t3, 1)}
     c = run.counters
     run.assume("issubclass on cohdl's type classes is the plain mro relation (checked: no __subclasscheck__ hooks; "
                "cross-validated with real issubclass calls on all pairs for every order of length <= 2)")
@@ -570,9 +639,11 @@ def main(run: Run):
              "views: every chain of view operations up to the tier's length x qualifier kind x terminal (whole|iterate) x (read|write), "
              "Python level with all written values and emitted level simulated for all input values (non-trivial = at least one view "
              "operation / at least two distinct simulated outputs)",
-        evaluations=c.get("type_orders_explored", 0) + c.get("py_chains", 0) + c.get("py_struct_chains", 0) + c.get("emit_ok", 0) + c.get("emit_mismatch", 0),
+        evaluations=c.get("type_orders_explored", 0) + c.get("py_chains", 0) + c.get("py_struct_chains", 0) + c.get("emit_ok", 0) + c.get("emit_mismatch", 0)
+        + c.get("alias_cases", 0),
         distinct_nontrivial=(c.get("type_orders_explored", 0) - c.get("type_orders_last_step_cached", 0) - c.get("type_orders_raised", 0))
-        + c.get("py_chains_nontrivial", 0) + c.get("py_struct_chains_nontrivial", 0) + c.get("emit_designs_nontrivial", 0),
+        + c.get("py_chains_nontrivial", 0) + c.get("py_struct_chains_nontrivial", 0) + c.get("emit_designs_nontrivial", 0)
+        + c.get("alias_distinct_ok", 0) + c.get("alias_arrinit_ok", 0) + c.get("alias_dynidx_ok", 0),
     )
 
 
@@ -603,6 +674,15 @@ def replay(run: Run, data):
                                      tuple(tuple(o) for o in data["chain"]), data["iter_elem"])
         print(pr)
         return not any(tag == data["tag"] for tag, _ in (pr or []))
+    if part == "alias":
+        fam, case = data["fam"], _tup(data["case"])
+        if fam == "distinct":
+            pr, _ = A.check_distinct(case)
+            print(pr)
+            return not pr
+        r = A.check_arrinit(case) if fam == "arrinit" else A.check_dynidx(case)
+        print(r["status"], r.get("what"))
+        return r["status"] not in ("mismatch", "static")
     if part == "emit":
         r = V.check_emitted(tuple(data["q"]), data["kind"], data["W"], tuple(tuple(o) for o in data["chain"]), data["term"], data["mode"])
         print(r["status"], r.get("what"))
